@@ -431,6 +431,53 @@ def check_sweep(run: Run, prog: Program, tier: str = "quick") -> None:
               node=loop, file=fn.file)
 
 
+def check_end_to_end(run: Run, prog: Program, n: int, shapes: list[tuple[int, int, int]]) -> None:
+    """Thorough cross-check of the induction: the whole _calc_target_power with n symbolic proposals."""
+    fn = prog.func(f"{MAT}:Matryoshka._calc_target_power")
+    it = OrderInterp(prog, prog.module(MAT))
+    ctx: dict[str, Any] = {}
+
+    def make_args() -> dict[str, Any]:
+        it.globals["__ZERO__"] = Atom("ZERO")
+        zero = it.globals["__ZERO__"]
+        incl = None
+        if it.choose(2, "system inclusion bounds present") == 1:
+            sl, su = Atom("sysL"), Atom("sysU")
+            it.assume("<=", sl, zero)
+            it.assume("<=", zero, su)
+            incl = Obj("Bounds", lower=sl, upper=su)
+        excl = mk_excl(it, it.choose(2, "system exclusion bounds present") == 1, ("sel", "seu"))
+        props = []
+        for i in range(n):
+            p = mk_proposal(it, tag=f"p{i}", shapes=shapes)
+            p.fields["priority"] = n - i
+            props.append(p)
+        ctx.update(incl=incl, excl=excl)
+        return {"self": Obj("self"), fn.params[1]: props,
+                fn.params[2]: Obj("SystemBounds", inclusion_bounds=incl, exclusion_bounds=excl)}
+
+    def post(T: Any) -> Any:
+        if not isinstance(T, Atom):
+            return ("shape", f"target {T!r} is not an input value")
+        zero = it.globals["__ZERO__"]
+        bad = []
+        incl, excl = ctx["incl"], ctx["excl"]
+        if incl is None:
+            if not it.entails("=", T, zero):
+                bad.append("without inclusion bounds the target is not zero")
+        else:
+            if may_fail(it, "<=", incl.fields["lower"], T) or may_fail(it, "<=", T, incl.fields["upper"]):
+                bad.append("target can leave the system inclusion bounds")
+        if in_zone(it, T, excl):
+            bad.append("target can be strictly inside the system exclusion zone")
+        return ("bad", bad) if bad else None
+
+    outs = it.explore(fn.node, make_args, post)
+    _report_orderings(run, "C03.ENV", fn, outs, f"end-to-end sweep with {n} symbolic proposal(s) stays in the "
+                      "usable system bounds")
+    run.extra_cov.setdefault("abstract_paths", {})[f"end_to_end_{n}"] = len(outs)
+
+
 # ---------------------------------------------------------------------------------------------
 def check_pure(run: Run, prog: Program) -> None:
     fn = prog.func(f"{MAT}:Matryoshka._calc_target_power")
@@ -689,6 +736,9 @@ def env_rules(run: Run, prog: Program, tier: str = "quick") -> None:
     check_clamp(run, prog)
     check_adjust(run, prog)
     check_sweep(run, prog, tier)
+    if tier == "thorough":
+        check_end_to_end(run, prog, 1, SHAPES_ALL)
+        check_end_to_end(run, prog, 2, SHAPES_SPLIT)
 
 
 def other_rules(run: Run, prog: Program) -> None:
@@ -699,9 +749,7 @@ def other_rules(run: Run, prog: Program) -> None:
 
 
 def run_rules(run: Run, prog: Program, tier: str = "quick") -> None:
-    check_clamp(run, prog)
-    check_adjust(run, prog)
-    check_sweep(run, prog, tier)
+    env_rules(run, prog, tier)
     check_pure(run, prog)
     check_ord(run, prog)
     check_repl(run, prog)
